@@ -553,6 +553,40 @@ Proof. intros H r Lr e m Em. pose proof (crun_CI cap evs _ _ (CI_cw0 n) H) as I.
   unfold gfb in G. destruct (alookup e (locals (ww (gw cw)) r)) as [h|]; [|discriminate]. cbn in G. inversion G. reflexivity. Qed.
 Print Assumptions C11_edit_after_merge_builds_on_merge.
 
+(* the commit itself: the staged operations become one pack whose only parent is the head the ref pointed to, and the ref
+   moves there.  Together with the theorem above (that head is the one the loaded bug was read from, i.e. after a pull the merged
+   head, whatever was staged when the pull arrived), every edit made through the cache is a child of the merged history. *)
+Lemma sstep_commit_child sw r e id au ops sw' : WI sw -> sstep sw (ECommit r (Some e) [Pk id au ops]) = Some (sw', ODone) ->
+  exists h, alookup e (locals (ww sw) r) = Some h /\ alookup e (locals (ww sw') r) = Some (length (st (ww sw))) /\ parents (st (ww sw')) (length (st (ww sw))) = [h].
+Proof. intros W Hs. pose proof (wi_ww sw W) as WWw. cbn [sstep] in Hs.
+  destruct (alookup e (locals (ww sw) r)) as [h|] eqn:El; [|discriminate].
+  destruct (negb (valid (st (ww sw)) h)); [discriminate|].
+  destruct (step (ww sw) (AWitness r h)) as [w1|] eqn:S1; [|discriminate]. cbn [commit_packs] in Hs.
+  destruct (step w1 (AEdit r h id au ops)) as [w2|] eqn:S2; [|discriminate]. inversion Hs; subst. cbn [ww with_ww].
+  exists h. split; [reflexivity|].
+  pose proof (WI_step sw (AWitness r h) _ W I S1) as W1. pose proof (wi_ww _ W1) as WW1. cbn [ww with_ww] in WW1.
+  rewrite locals_lh in El.
+  assert (El1 : lh w1 r e = Some h) by (rewrite (step_lh_witness _ _ _ _ r e WWw S1); exact El).
+  destruct (step_same_store _ _ _ WWw S1 I) as [Est _]. split.
+  - rewrite locals_lh, (step_lh_edit w1 r h id au ops w2 e e WW1 S2 El1), Nat.eqb_refl. now rewrite Est.
+  - cbn [step] in S2. destruct (nth_error (reps w1) r); [|discriminate]. destruct (negb _); [discriminate|]. inversion S2; subst. cbn [st].
+    rewrite Est. unfold parents. rewrite nth_error_app2, Nat.sub_diag by lia. reflexivity. Qed.
+
+Theorem C11_commit_is_child_of_loaded_head n cap evs cw r e id au cw' : crun fixed cap (cw0 n) evs = Some cw ->
+  cstep fixed cap cw (VCommit r e id au) = Some (cw', CDone) ->
+  exists h m, kget e (sl (cb (ucache_of cw r))) = Some m /\ fst (m_base m) = h /\ alookup e (locals (ww (gw cw)) r) = Some h /\ alookup e (locals (ww (gw cw')) r) = Some (length (st (ww (gw cw)))) /\ parents (st (ww (gw cw'))) (length (st (ww (gw cw)))) = [h].
+Proof. intros H Hs. pose proof (crun_CI cap evs _ _ (CI_cw0 n) H) as Ic. pose proof (ci_wi cw Ic) as W.
+  unfold cstep in Hs. cbn [rep_ev] in Hs. destruct (negb (Nat.ltb r (length (ucs cw)))); [discriminate|].
+  destruct (kget e (sl (cb (ucache_of cw r)))) as [m|] eqn:Em; [|discriminate].
+  destruct (negb (is_dirty m)); [discriminate|].
+  destruct (alookup e (locals (ww (gw cw)) r)) as [h|] eqn:El; [|discriminate].
+  destruct (Nat.eqb_spec h (fst (m_base m))) as [Eh|]; cbn [negb] in Hs; [|discriminate].
+  destruct (sstep (gw cw) (ECommit r (Some e) [Pk id au (m_staged m)])) as [[sw' o]|] eqn:Ss; [|discriminate].
+  destruct o; try discriminate. destruct (gfb sw' r e) as [b|]; [|discriminate]. inversion Hs; subst cw'; clear Hs. cbn [gw].
+  destruct (sstep_commit_child _ _ _ _ _ _ _ W Ss) as (h' & A & B & C). rewrite El in A. inversion A; subst h'.
+  exists h, m. auto. Qed.
+Print Assumptions C11_commit_is_child_of_loaded_head.
+
 (* ---------------- the code as found: concrete sessions ending in a quiescent, incoherent state ---------------- *)
 Definition quiescentb_at (cw : cworld) (r : nat) : bool := quiescentb (cb (ucache_of cw r)) && quiescentb (ci (ucache_of cw r)).
 Lemma quiescentb_at_spec cw r : quiescentb_at cw r = true -> quiescent cw r.
@@ -604,3 +638,18 @@ Example witnesses_run_fixed :
               quiescentb_at cw 1 = true /\
               gfb (gw cw) 1 0 = Some (4, [100%N; 101%N; 201%N; 202%N]) /\ parents (st (ww (gw cw))) 4 = [3] /\ parents (st (ww (gw cw))) 3 = [2; 1]).
 Proof. repeat split; try (eexists; vm_compute; reflexivity). eexists. split; [vm_compute; reflexivity|]. repeat split; vm_compute; reflexivity. Qed.
+
+(* a pull that updates a bug loaded with an uncommitted operation (201): under the repaired code the merged entity replaces the
+   loaded one (the operation staged before the pull is dropped, as in cache/subcache.go MergeAll), the state is quiescent and
+   coherent at once, and the next edit made through the cache is a child of the merged head *)
+Definition witness_pull_over_staged : list cev :=
+  [VIdNew 0 0 1%N; VNew 0 10%N 1%N [100%N]; VPush 0; VIdNew 1 1 2%N; VPull 1 [0] [(0, 0%N, 0%N)];
+   VResolve 1 0; VStage 1 0 201%N;
+   VResolve 0 0; VStage 0 0 101%N; VCommit 0 0 11%N 1%N; VPush 0;
+   VPull 1 [0] [(0, 0%N, 0%N)]].
+Example pull_over_staged_runs_fixed :
+  (exists cw, crun fixed 2 (cw0 2) witness_pull_over_staged = Some cw /\ quiescentb_at cw 1 = true /\
+              kget 0 (sl (cb (ucache_of cw 1))) = Some (clean (1, [100%N; 101%N]))) /\
+  (exists cw, crun fixed 2 (cw0 2) (witness_pull_over_staged ++ [VResolve 1 0; VStage 1 0 202%N; VCommit 1 0 12%N 2%N]) = Some cw /\
+              gfb (gw cw) 1 0 = Some (2, [100%N; 101%N; 202%N]) /\ parents (st (ww (gw cw))) 2 = [1]).
+Proof. split; (eexists; split; [vm_compute; reflexivity|]; repeat split; vm_compute; reflexivity). Qed.
